@@ -25,7 +25,14 @@ impl<'a> StatementEvaluator<'a> {
             }
         }
         match self.program().next_token() {
-            Some(Token::Stop) => Ok(self.interpreter.break_at_current_location()),
+            Some(Token::Stop) => {
+                if self.program().peek_next_token() == Some(Token::Else) {
+                    // We're the "then" clause of an IF: CONT must not resume
+                    // in front of the else clause, so skip it now.
+                    self.program().discard_remaining_tokens();
+                }
+                Ok(self.interpreter.break_at_current_location())
+            }
             Some(Token::Dim) => self.evaluate_dim_statement(),
             Some(Token::Print) | Some(Token::QuestionMark) => self.evaluate_print_statement(),
             Some(Token::Input) => self.evaluate_input_statement(),
